@@ -135,6 +135,10 @@ def wav_variants(rng):
         ("wav-big-rate-data", wav_ok(n=3000, rate=44100, bits=16)),
         ("wav-two-data", riff([fmt_chunk(), chunk(b"data", d40), chunk(b"data", d40[:7])])),
         ("wav-two-fmt", riff([fmt_chunk(), fmt_chunk(bits=16), chunk(b"data", d40)])),
+        # chunks start on even offsets only: after a chunk of length 2 mod 4 every 32-bit field is misaligned
+        ("wav-chunk-2mod4", riff([chunk(b"JUNK", b"ab"), fmt_chunk(), chunk(b"data", d40)])),
+        ("wav-chunk-2mod4", riff([fmt_chunk(), chunk(b"data", d40[:38]), smpl_chunk([(4, 30)])])),
+        ("wav-chunk-2mod4", riff([chunk(b"LIST", b"abcdef"), fmt_chunk(bits=16), chunk(b"data", d40), chunk(b"JUNK", b"xy"), smpl_chunk([(1, 9)])])),
     ]
     ok = wav_ok(n=24, bits=16, loops=[(2, 20)])
     for cut in (1, 8, 11, 12, 16, 20, 21, 35, 36, 40, 44, 45, 60, len(ok) - 1, len(ok) - 24):
